@@ -271,6 +271,9 @@ def stream_masks(rep, drv, r, n):
         kind, p = gen_aperture(r, boundary=(k % 3 == 0))
         method = r.choice(['center', 'subpixel', 'subpixel'])
         sub = 1 if method == 'center' else r.choice([1, 2, 4, 2, 4, 8, 3, 5])
+        # 'center' ignores `subpixels` (documented): whatever is passed - or the default, 5 - the mask is the pixel-centre rule, i.e.
+        # the model's sub-sampling with one sample (seed C01-r13 used the raw keyword for the inner circle of an annulus)
+        sub_kw = {'subpixels': sub} if method != 'center' else r.choice([{'subpixels': 1}, {}, {'subpixels': 3}, {'subpixels': 8}])
         try:
             ap = make_aperture(kind, p)
             if k % 4 == 1:
@@ -278,7 +281,7 @@ def stream_masks(rep, drv, r, n):
                 # the mask is a function of (shape, method, subpixels) only
                 _ = ap.to_mask(method='subpixel', subpixels=r.choice([1, 2, 3, 7, 16]))
                 _ = ap.to_mask(method=r.choice(['center', 'exact']))
-            m = ap.to_mask(method=method, subpixels=sub)
+            m = ap.to_mask(method=method, **sub_kw)
         except Exception as e:  # pragma: no cover - reported as violation below
             rep.violation(f'to_mask-raises:{kind}:{type(e).__name__}',
                           f'to_mask raised {type(e).__name__} for valid {kind} aperture',
